@@ -5,7 +5,7 @@ from .. import nf
 from ..nf import Poly, Tup, Const, NONE, TRUE, FALSE
 from ..model import AnalysisError
 from ..ranges import Ranges, Rng
-from ..rules import run as analyse, returns, fmt, is_app, S, C, pair, root_sym
+from ..rules import run as analyse, returns, fmt, is_app, S, C, pair, root_sym, conds_str
 from ..npmodel import nf_abs
 from .c01 import dft2_gain
 from .prop_flow import DftFlow, configs
@@ -65,21 +65,7 @@ def run(chk, repo, tier):
                ed.bound.get('unitary') == TRUE, f'unitary={fmt(ed.bound.get("unitary"))}', fl.f.loc(ed.node))
 
     # ---------------------------------------------------------------- C05-b
-    f2, p2, _ = analyse(repo, 'propagate._fft2')
-    norms = set()
-    for p in returns(p2):
-        for x in nf.value_atoms(p.ret):
-            if is_app(x, 'fft.fft2'):
-                n = None
-                for extra in x[2][1:]:
-                    if isinstance(extra, Tup):
-                        for pr in extra.items:
-                            if isinstance(pr, Tup) and pr.items[0] == Const('norm'):
-                                n = pr.items[1]
-                norms.add(n)
-    chk.ob('C05-b', 'T-keyword', f2.key, "fft2(..., norm='ortho')", norms == {Const('ortho')},
-           f'norm arguments: {sorted(map(repr, norms))}', f2.loc())
-
+    # the unitarity of propagate._fft2 (norm='ortho', or 1/sqrt(rows*cols) by hand) is rule C09-h, run below under C05-b
     from .common import Remap
     from . import c09
     c09.run(Remap(chk, {'C09-d': 'C05-b', 'C09-e': 'C05-b', 'C09-h': 'C05-b', 'C09-g': 'C05-b'}), repo, tier)
@@ -116,12 +102,29 @@ def run(chk, repo, tier):
     # ---------------------------------------------------------------- C05-d
     fn, np_, _ = analyse(repo, 'util.normalize_power')
     rets = returns(np_)
-    if len(rets) != 1:
-        raise AnalysisError('normalize_power: expected a single path')
-    r = rets[0].ret
+    if not rets:
+        raise AnalysisError('normalize_power: no returning path')
     arr = S('array')
-    c = r / arr if isinstance(r, Poly) else None
     sig = nf.app('sum', nf_abs(arr) ** 2)
-    ok = c is not None and ('sym', 'array') not in {x for x in c.atoms(deep=False)} and c ** 2 * sig == S('power')
-    chk.ob('C05-d', 'N-identity', fn.key, 'c^2 * sum(|array|^2) = power', bool(ok),
-           f'scale factor c = {fmt(c)}; c^2*sum|a|^2 = {fmt(c ** 2 * sig) if c is not None else "?"}', fn.loc())
+    for pth in rets:
+        r = pth.ret
+        c = r / arr if isinstance(r, Poly) else None
+        ok = c is not None and ('sym', 'array') not in {x for x in c.atoms(deep=False)} and c ** 2 * sig == S('power')
+        det = f'scale factor c = {fmt(c)}; c^2*sum|a|^2 = {fmt(c ** 2 * sig) if c is not None else "?"}'
+        if not ok and nf.strip_apps(r, ('copy', 'asarray', 'zeros_like')) in (arr, C(0)):
+            # the array handed back as it is: only right where it carries no power at all (nothing can be normalised),
+            # i.e. under a test that the array is exactly zero - a tolerance test also catches faint fields
+            exact = False
+            for cnd, pol, _ in pth.conds:
+                ca = cnd.single_atom() if isinstance(cnd, Poly) else None
+                if ca is None:
+                    continue
+                if is_app(ca, ('any', 'm:any', 'count_nonzero')) and pol is False and ca[2] and nf.strip_apps(ca[2][0], ('abs',)) == arr:
+                    exact = True
+                if is_app(ca, 'eq') and pol and C(0) in ca[2] and any(x in (sig, nf.app('sum', nf_abs(arr))) for x in ca[2]):
+                    exact = True
+            tol = [fmt(cnd)[:60] for cnd, pol, _ in pth.conds if any(is_app(x, ('allclose', 'isclose', 'numpy.allclose', 'numpy.isclose', 'math.isclose')) for x in nf.value_atoms(cnd))]
+            ok = True if exact else (False if tol else None)
+            det = f'returned unscaled under [{conds_str(pth)[:100]}]' + (': a tolerance test, fields fainter than the tolerance '
+                                                                        'lose their normalisation' if tol and not exact else '')
+        chk.ob('C05-d', 'N-identity', fn.key, f'c^2 * sum(|array|^2) = power [{conds_str(pth)[:60]}]', ok, det, fn.loc(pth.node))
